@@ -314,7 +314,7 @@ Proof.
     destruct (effs_small t es Hp HH) as [Hbig Hoom]. rewrite Hoom, Hbig.
     pose proof (handshake_reject_stage _ _ _ _ _ _ _ Eh) as Hst.
     unfold C14_check. cbn [o_crash o_big o_hs o_ainit o_binit o_steps o_abits o_cnt1 o_cnt2 o_pend o_fsize o_bclosed o_bprobe o_have].
-    rewrite Hst, Hbinit, Hbh, Hl, !Z.eqb_refl. cbn [forallb negb andb orb].
+    rewrite Hst, Hbinit, pending_in_range, Hbh, Hl, !Z.eqb_refl. cbn [forallb negb andb orb].
     rewrite (Hprobe have Hl), (LeH_check have have (LeH_refl have)). reflexivity.
   - (* accepted *)
     destruct HH as [IA EA].
